@@ -10,8 +10,8 @@
 //! relationship list.  Floats are logged as integers: integral values as such plus an `exact` flag,
 //! scores / coefficients as round(x * 10^6).
 //!
-//! rep=1   additionally runs PageRank / CDLP / triangle count / LCC on k disjoint copies of the graph
-//!         (k = 2: sequential code path, k = ceil(1000/n): the rayon code paths, n >= 1000) inside rayon
+//! rep=1|2 additionally runs PageRank / CDLP / triangle count / LCC on k disjoint copies of the graph
+//!         (k = ceil(1000/n): the rayon code paths, n >= 1000; rep=2: also k = 2, sequential control) inside rayon
 //!         pools of 1 and 8 threads and logs, per base node, the DISTINCT values seen over the copies
 //!         (PageRank scaled by k; CDLP labels relative to the copy's first id).
 //! mode=random   ignores the scripts' content: generates `count` seeded random graphs (`minn..maxn` nodes)
@@ -290,7 +290,7 @@ fn rep_runs(g: &Graph, copies: u64, pools: &Pools, pr: &[PrCfg], cd: &[usize], a
 }
 
 // ------------------------------------------------------------------------------------------------ one script
-fn run_graph(tr: &mut Trace, sc: &Script, proj: &str, rep: bool, pools: &Pools, only: &str, repalgos: &str, prmaxit: usize) -> Res<()> {
+fn run_graph(tr: &mut Trace, sc: &Script, proj: &str, rep: u64, pools: &Pools, only: &str, repalgos: &str, prmaxit: usize) -> Res<()> {
     let want = |k: &str| only.is_empty() || only.split(',').any(|x| x == k);
     tr.reset(&sc.sid)?;
     let mut db = Db::new();
@@ -583,7 +583,7 @@ fn run_graph(tr: &mut Trace, sc: &Script, proj: &str, rep: bool, pools: &Pools, 
     }
     // ---------------------------------------------------------------- parallel code paths on disjoint copies
     if want("Rep") {
-        if rep && n > 0 {
+        if rep > 0 && n > 0 {
             let mut runs = Vec::new();
             let pr = vec![
                 PrCfg { dn: 3, dd: 4, iters: 2, tol_d: 0, dang: true },
@@ -591,7 +591,7 @@ fn run_graph(tr: &mut Trace, sc: &Script, proj: &str, rep: bool, pools: &Pools, 
                 PrCfg { dn: 3, dd: 4, iters: 2, tol_d: 0, dang: false },
             ];
             let big = (1000 + n - 1) / n;
-            for copies in [2u64, big] {
+            for copies in if rep > 1 { vec![2u64, big] } else { vec![big] } {
                 rep_runs(&g, copies, pools, &pr, &[1, 2, 3], repalgos, &mut runs);
             }
             tr.emit(json!({"ev": "Rep", "runs": runs}))?;
@@ -805,11 +805,21 @@ fn run(scripts: &str, trace: &str, opts: &Opts) -> Res<()> {
         return tr.finish();
     }
     let proj = opts.get_str("proj", "basic");
-    let rep = opts.get_u64("rep", 0) == 1;
+    let rep = opts.get_u64("rep", 0); // 0: no replicated runs, 1: copies crossing the threshold, 2: also the 2-copy control
     let prmaxit = opts.get_u64("prmaxit", 3) as usize;
     let all = read_scripts(scripts)?;
+    // scripts whose sid starts with `fullprefix` get the full label/type projections (and no replicated runs);
+    // scripts whose sid starts with `midprefix` (5/6-node graphs) get at most 2 PageRank iterations (32-bit TLC integers)
+    let fullprefix = opts.get_str("fullprefix", "\u{1}");
+    let midprefix = opts.get_str("midprefix", "\u{1}");
     for sc in &all {
-        run_graph(&mut tr, sc, &proj, rep, &pools, &only, &repalgos, prmaxit)?;
+        if sc.sid.starts_with(&fullprefix) {
+            run_graph(&mut tr, sc, "full", 0, &pools, &only, &repalgos, prmaxit)?;
+        } else if sc.sid.starts_with(&midprefix) {
+            run_graph(&mut tr, sc, &proj, rep, &pools, &only, &repalgos, prmaxit.min(2))?;
+        } else {
+            run_graph(&mut tr, sc, &proj, rep, &pools, &only, &repalgos, prmaxit)?;
+        }
     }
     println!("scripts: {}, events {}", all.len(), tr.events);
     tr.finish()
